@@ -101,6 +101,11 @@ func (i *seqIterator) Next() bool {
 			i.Seq = nil
 			return true
 		}
+		// (A, B), C is equivalent to A, (B, C).
+		if l, ok := i.Env.Resolve(s.Arg(0)).(Compound); ok && l.Functor() == atomComma && l.Arity() == 2 {
+			i.Seq = atomComma.Apply(l.Arg(0), atomComma.Apply(l.Arg(1), s.Arg(1)))
+			return i.Next()
+		}
 		i.Seq = s.Arg(1)
 		i.current = s.Arg(0)
 		return true
